@@ -135,7 +135,55 @@ def regress_cases(pid):
     return [os.path.join(d, f) for f in sorted(os.listdir(d)) if f.endswith(".json")]
 
 
+def _in_child(fn, *a):
+    """run fn(*a) in a forked child and return its (pickled) result: every case executes in a process of its own, so that
+    process-global state left behind by the code under test in one case can never reach another case, whichever pool
+    worker they share - one seed stays one exactly repeatable execution also on a tree that leaks state"""
+    import pickle
+    r, w = os.pipe()
+    child = os.fork()
+    if child == 0:
+        code = 0
+        try:
+            os.close(r)
+            try:
+                data = pickle.dumps(("ok", fn(*a)))
+            except BaseException:  # noqa: BLE001
+                data = pickle.dumps(("err", traceback.format_exc()))
+            with os.fdopen(w, "wb") as f:
+                f.write(data)
+        except BaseException:  # noqa: BLE001
+            code = 3
+        finally:
+            os._exit(code)
+    os.close(w)
+    with os.fdopen(r, "rb") as f:
+        data = f.read()
+    os.waitpid(child, 0)
+    if not data:
+        return ("err", "child process died without a result")
+    return pickle.loads(data)
+
+
 def _work(args):
+    if os.environ.get("VERIF_FORK_PER_CASE", "1") == "0":
+        return _work_inner(args)
+    status, out = _in_child(_work_inner, args)
+    if status == "ok":
+        return out
+    return {"idx": args[3], "run_seed": args[1], "harness_error": out}
+
+
+def exec_case_isolated(pid, case):
+    if os.environ.get("VERIF_FORK_PER_CASE", "1") == "0":
+        return exec_case(pid, case)
+    status, out = _in_child(exec_case, pid, case)
+    if status == "ok":
+        return out
+    raise RuntimeError("case failed in its child process:\n" + str(out))
+
+
+def _work_inner(args):
     pid, run_seed, tier, idx = args
     faulthandler.enable()
     try:
@@ -182,7 +230,7 @@ def match_known(known, pid, sig):
 
 def _same_violation(pid, case, sig):
     try:
-        res = exec_case(pid, case)
+        res = exec_case_isolated(pid, case)
     except Exception:
         return None
     for v in res["violations"]:
